@@ -412,6 +412,16 @@ impl Session {
                     // the pay command keeps running (no part yet) and is answered later by the test
                     self.node.parts.pop();
                     self.slow_pays.push((stream, id.clone(), pid, hx.clone()));
+                } else if at == "pay-drop-complete" {
+                    // the connection dies after lightningd accepted the command, and the part has
+                    // already settled when the plugin starts asking
+                    let pre = self.preimages.get(&hx).copied();
+                    if let (Some(p), Some(pre)) = (self.node.parts.last_mut(), pre) {
+                        p.status = PartStatus::Complete;
+                        p.preimage = Some(pre);
+                    }
+                    self.node.pays.iter_mut().filter(|p| p.id == pid).for_each(|p| p.running = false);
+                    let _ = stream.shutdown(std::net::Shutdown::Both);
                 } else if at == "pay-drop" || at == "pay-drop-wait-drop" {
                     // the connection dies after lightningd accepted the command; the command has
                     // ended, its part stays pending (it resolves when the plugin waits on it)
